@@ -200,8 +200,13 @@ type Send struct {
 	// AfterContinues: number of "100 Continue" interim responses that must have been received first.
 	AfterContinues int
 	Delay          time.Duration
-	Bounds         []int // structural boundaries inside Data (relative)
-	Label          string
+	// WhenQuiet: instead of counting responses, wait until the server has consumed
+	// everything sent so far and is blocked waiting for more input
+	WhenQuiet bool
+	// Mark, if set, receives the number of bytes received from the server at the moment of sending
+	Mark   *int
+	Bounds []int // structural boundaries inside Data (relative)
+	Label  string
 }
 
 // Client is a scripted HTTP client actor (a state machine, not a goroutine).
@@ -276,7 +281,11 @@ func (cl *Client) Enabled(add func(core.Event)) {
 	cl.Parse()
 	if cl.next < len(cl.Sends) {
 		s := cl.Sends[cl.next]
-		if len(cl.Resps) >= s.AfterResps && cl.Continues >= s.AfterContinues && !cl.C.B.IsClosed() {
+		gate := len(cl.Resps) >= s.AfterResps && cl.Continues >= s.AfterContinues
+		if s.WhenQuiet {
+			gate = cl.next == 0 || (cl.C.A.ReaderParked() && cl.C.A.InflightTo() == 0)
+		}
+		if gate && !cl.C.B.IsClosed() {
 			i := cl.next
 			if s.Kind == "rst" && cl.C.A.InflightTo() > 0 {
 				return
@@ -304,6 +313,10 @@ func (cl *Client) Enabled(add func(core.Event)) {
 				return
 			}
 			add(core.Event{Key: fmt.Sprintf("send %s #%d %s", cl.C.Name, i, s.Label), Weight: 20, Apply: func() {
+				if s.Mark != nil {
+					cl.C.Pump()
+					*s.Mark = len(cl.C.Rx)
+				}
 				base := cl.sentBytes
 				for _, b := range s.Bounds {
 					cl.C.A.In.Boundaries = append(cl.C.A.In.Boundaries, base+b)
